@@ -186,6 +186,22 @@ def flush_zone_pattern(raw_col, stored_col):
     return stored_col[j] < 0 and raw_col[j] < 0 and abs(stored_col[j] - raw_col[j]) <= 0.5e-8 + 1e-12 * (1 + abs(raw_col[j]))
 
 
+def deep_eq(a, b):
+    """equality of Molecule.dict() values: arrays, lists of arrays, nested dicts"""
+    if isinstance(a, np.ndarray) or isinstance(b, np.ndarray):
+        try:
+            return np.shape(a) == np.shape(b) and bool(np.array_equal(np.asarray(a), np.asarray(b)))
+        except Exception:
+            return False
+    if isinstance(a, dict) and isinstance(b, dict):
+        return set(a) == set(b) and all(deep_eq(a[k], b[k]) for k in a)
+    if isinstance(a, (list, tuple)) and isinstance(b, (list, tuple)):
+        return len(a) == len(b) and all(deep_eq(x, y) for x, y in zip(a, b))
+    if isinstance(a, dict) or isinstance(b, dict) or isinstance(a, (list, tuple)) or isinstance(b, (list, tuple)):
+        return False
+    return bool(a == b)
+
+
 def oracle(case):
     """returns (failures, observations)"""
     from qcelemental.models import Molecule
@@ -209,8 +225,12 @@ def oracle(case):
         bad("oriented geometry is not the internal result after the geometry rounding (8 decimals, |x| < 5**-9 -> 0)",
             float(np.abs(g1 - raw).max()))
     # isometry
+    # stored geometries: within the 8-decimal rounding; where float_prep's zero flip (|x| < 5**-9 -> 0, C11-zero-flip-threshold) is
+    # active on a coordinate of the result, within that (each of the two atoms of a pair may be moved by up to 5.12e-7 per axis)
+    def flip_slack(r):
+        return 1.6e-6 if np.any((np.abs(r) > 0.5e-8) & (np.abs(r) < 5.2e-7)) else 0.0
     dd = np.abs(pair_dists(g1) - pair_dists(g0)).max() if n > 1 else 0.0
-    if dd > 1e-7 * scale:
+    if dd > 1e-7 * scale + flip_slack(raw):
         bad("an interatomic distance changed", float(dd))
     dd = np.abs(pair_dists(raw) - pair_dists(g0)).max() if n > 1 else 0.0
     if dd > 1e-9 * scale:
@@ -220,10 +240,19 @@ def oracle(case):
     for k in sorted(set(d0) | set(d1)):
         if k == "geometry":
             continue
-        a, b = d0.get(k), d1.get(k)
-        same = np.array_equal(a, b) if isinstance(a, np.ndarray) or isinstance(b, np.ndarray) else a == b
+        a, b = d0.get(k, "<absent>"), d1.get(k, "<absent>")
+        same = deep_eq(a, b)
         if not same:
-            bad(f"non-geometric field {k} changed", [repr(a)[:200], repr(b)[:200]])
+            bad(f"orient_molecule(): non-geometric field {k} changed", [repr(a)[:200], repr(b)[:200]])
+    # nothing the caller supplied may be dropped: every optional block given to the constructor is present afterwards
+    for k, v in (case.get("extra") or {}).items():
+        if k in ("identifiers", "extras") and isinstance(v, dict):
+            got = d1.get(k) or {}
+            lost = sorted(kk for kk in v if kk not in got or not deep_eq(got[kk], v[kk]))
+            if lost:
+                bad(f"orient_molecule(): entries of the caller's {k} block are lost", {"lost": lost, "after": repr(d1.get(k))[:200]})
+        elif k in ("name", "comment") and d1.get(k) != v:
+            bad(f"orient_molecule(): the caller's {k} is lost", [v, repr(d1.get(k))])
     # centre of mass
     com = (w[:, None] * raw).sum(axis=0) / w.sum()
     if np.abs(com).max() > 1e-9 * scale:
@@ -308,12 +337,16 @@ def oracle(case):
     o3 = Molecule.from_data(kw, dtype="dict", orient=True)
     if route_diff(o3.geometry) > rtol:
         bad("Molecule.from_data(..., orient=True) differs from orient_molecule()", route_diff(o3.geometry))
-    for nm, o in (("Molecule(orient=True, ...)", o2), ("Molecule.from_data(dict, orient=True)", o3)):
+    # every route keeps every non-geometric field of the unoriented molecule (and so the routes agree with each other)
+    for nm, o in (("Molecule(orient=True, ...)", o2), ("Molecule.from_data(dict, orient=True)", o3),
+                  ("Molecule(orient=True, validate=False, **mol.dict())", o5), ("orient_molecule() applied twice", omol.orient_molecule())):
         da = o.dict()
-        for k in ("fix_com", "fix_orientation", "fix_symmetry", "symbols", "real"):
-            a, b = d0.get(k), da.get(k)
-            if not (np.array_equal(a, b) if isinstance(a, np.ndarray) or isinstance(b, np.ndarray) else a == b):
-                bad(f"{nm}: field {k} differs from the unoriented molecule", [repr(a), repr(b)])
+        for k in sorted(set(d0) | set(da)):
+            if k == "geometry":
+                continue
+            a, b = d0.get(k, "<absent>"), da.get(k, "<absent>")
+            if not deep_eq(a, b):
+                bad(f"{nm}: non-geometric field {k} differs from the unoriented molecule", [repr(a)[:200], repr(b)[:200]])
     txt = psi4_text(case, g0)
     if txt is not None:
         o4 = Molecule.from_data(txt, orient=True)
@@ -331,7 +364,7 @@ def oracle(case):
         s4 = 1.0 + float(np.abs(t4).max())
         if max(abs(t4[0][1]), abs(t4[0][2]), abs(t4[1][2])) > 1e-6 * s4 or not (t4[0][0] <= t4[1][1] + 1e-6 * s4 and t4[1][1] <= t4[2][2] + 1e-6 * s4):
             bad("psi4 text route (from_data(text, orient=True)): inertia tensor is not diagonal ascending", t4.tolist())
-        if n > 1 and np.abs(pair_dists(g4) - pair_dists(g0)).max() > 1e-7 * scale:
+        if n > 1 and np.abs(pair_dists(g4) - pair_dists(g0)).max() > 1e-7 * scale + flip_slack(raw):
             bad("psi4 text route: an interatomic distance changed", float(np.abs(pair_dists(g4) - pair_dists(g0)).max()))
         if np.array_equal(w4, w) and route_diff(g4) > rtol:
             bad("psi4 text route differs from orient_molecule()", route_diff(g4))
@@ -344,7 +377,8 @@ def oracle(case):
         om2 = mol2.orient_molecule()
         g2 = np.array(om2.geometry, dtype=float)
         dd = np.abs(pair_dists(g2) - pair_dists(g0)).max() if n > 1 else 0.0
-        if dd > 1e-7 * scale:
+        qin = np.array([[float(c) for c in p] for p in Q], dtype=float)
+        if dd > 1e-7 * scale + max(flip_slack(np.array(mol2._orient_molecule_internal(), dtype=float)), flip_slack(qin)):
             bad("an interatomic distance changed (moved copy)", float(dd))
         if asym:
             for ax in range(3):
@@ -437,6 +471,27 @@ def rnd_motion(rng):
     return {"q": q, "t": [fr_s(rnd_coord(rng, 4)) for _ in range(3)]}
 
 
+def rich_block(rng, n, real=None):
+    """every optional non-geometric block a molecule can carry: identifiers (several entries), extras, comment, name, provenance,
+    connectivity, atom labels, fragments (with charges) - next to the isotopes / masses / ghosts / frame flags set elsewhere"""
+    ids = {"smiles": "C" * rng.randint(1, 4), "inchi": "InChI=1S/probe%d" % rng.randint(0, 99), "molecular_formula": "X%d" % n,
+           "pubchem_cid": str(rng.randint(1, 10 ** 6)), "canonical_smiles": "[probe]", "inchikey": "PROBEKEY-%04d" % rng.randint(0, 9999),
+           "pubchem_sid": str(rng.randint(1, 999)), "molecule_hash": "%040x" % rng.getrandbits(160)}
+    keep = rng.sample(sorted(ids), rng.randint(2, len(ids)))
+    ex = {"name": "annotated-%d" % rng.randint(0, 999), "comment": "carries every optional block",
+          "identifiers": {k: ids[k] for k in keep}, "extras": {"tag": rng.randint(0, 9), "origin": "c16", "nested": {"a": [1, 2]}},
+          "provenance": {"creator": "c16-probe", "version": "1.0", "routine": "harness.props.c16"},
+          "atom_labels": [rng.choice(["", "a", "b1", "x"]) for _ in range(n)]}
+    if n >= 2:
+        pairs = [(i, j) for i in range(n) for j in range(i + 1, n)]
+        ex["connectivity"] = [(i, j, rng.choice([1.0, 2.0, 1.5])) for i, j in sorted(rng.sample(pairs, min(len(pairs), rng.randint(1, 3))))]
+    if n >= 3 and rng.random() < 0.7:
+        k = rng.randint(1, n - 1)
+        ex["fragments"] = [list(range(k)), list(range(k, n))]
+        ex["fragment_charges"] = [0.0, 0.0]
+    return ex
+
+
 def rnd_molecule(rng, shape):
     n = {"atom": 1, "diatomic": 2}.get(shape) or rng.randint(3, 12)
     while True:
@@ -520,6 +575,8 @@ def rnd_molecule(rng, shape):
         case["real"] = real
     if rng.random() < 0.25:
         case["extra"] = {"name": "probe", "comment": "c16", "extras": {"tag": 1}}
+    if rng.random() < 0.3:
+        case["extra"] = rich_block(rng, n, case.get("real"))
     if rng.random() < 0.6:
         fl = {}
         if rng.random() < 0.6:
@@ -564,6 +621,15 @@ def gen_cases(ctx):
     cases.append({"stream": "corpus", "shape": "flushzone", "symbols": ["He"] * 5,
                   "geom": [[fr_s(Fr(round(x * 10 ** 12), 10 ** 12)) for x in p] for p in fzm],
                   "motion": {"q": [1, 2, 0, -1], "t": ["1/2", "-3", "7/4"]}})
+    cases.append({"stream": "corpus", "shape": "asym", "symbols": ["O", "H", "H", "He"], "real": [True, True, True, False],
+                  "masses": [15.99491461957, 2.01410177812, 1.00782503223, 4.00260325413],
+                  "geom": z(("3/10", "-1/10", "1/5"), ("19/10", "3/5", "-3/10"), ("-7/10", "8/5", "9/10"), (4, -3, "5/2")),
+                  "extra": {"name": "hdo...he", "comment": "semi-heavy water with a ghosted helium", "atom_labels": ["a", "d", "", "gh"],
+                            "identifiers": {"smiles": "[2H]O", "molecular_formula": "H2O", "pubchem_cid": "139859"},
+                            "extras": {"tag": 7, "origin": "corpus"}, "connectivity": [(0, 1, 1.0), (0, 2, 1.0)],
+                            "fragments": [[0, 1, 2], [3]], "fragment_charges": [0.0, 0.0],
+                            "provenance": {"creator": "c16-probe", "version": "1.0", "routine": "corpus"}},
+                  "flags": {"fix_symmetry": "c1"}, "motion": {"q": [1, -2, 1, 2], "t": ["1", "-1/2", "3"]}})
     cases.append({"stream": "corpus", "shape": "atom", "symbols": ["Ne"], "geom": z((1, 2, 3)), "motion": {"q": [1, 0, 1, 0], "t": ["1", "1", "1"]}})
     plan = [("asym", 6000 if T else 300), ("planar", 1500 if T else 80), ("linear", 1200 if T else 60), ("symtop", 1200 if T else 60),
             ("sphtop", 200 if T else 15), ("nearplanar", 800 if T else 50), ("flushzone", 300 if T else 25), ("diatomic", 400 if T else 30), ("atom", 60 if T else 8)]
@@ -618,6 +684,10 @@ def correspond(ctx):
             corr.hit("stored_zero_flip_of_a_coordinate_above_the_phase_threshold")
         if case.get("geometry_noise") is not None:
             corr.hit("geometry_noise_%d" % case["geometry_noise"])
+        if (case.get("extra") or {}).get("identifiers"):
+            corr.hit("carries_identifiers_provenance_labels_connectivity")
+        if (case.get("extra") or {}).get("fragments"):
+            corr.hit("carries_fragments")
         if obs.get("sign_free_axes"):
             corr.hit("columns_compared_up_to_sign_(phase_decided_by_an_atom_stored_as_zero)", obs["sign_free_axes"])
         if len(case["symbols"]) >= 2:
